@@ -47,10 +47,10 @@ Definition address_to_script_pubkey (s : list Z) : result (list cmd) :=
     else '(_, _, h) <- decode_bech32 s ;; Ok (p2tr_script h)
   else Err.
 
-(* tx.py TxOut.to_address: the script_pubkey of the TxOut it returns.  Note: only
-   "bc1"/"tb1" are recognised as segwit, a regtest "bcrt1..." address raises. *)
+(* tx.py TxOut.to_address: the script_pubkey of the TxOut it returns
+   (address.startswith(("bc1", "tb1", "bcrt1")) since fix 2063db4) *)
 Definition to_address_spk (s : list Z) : result (list cmd) :=
-  if starts_with [98;99;49] s || starts_with [116;98;49] s then
+  if starts_with [98;99;49] s || starts_with [116;98;49] s || starts_with [98;99;114;116;49] s then
     '(_, version, h) <- decode_bech32 s ;;
     if version =? 0 then
       if (length h =? 20)%nat then Ok (p2wpkh_script h)
